@@ -147,6 +147,11 @@ def run(ctx: Ctx) -> Result:
     for s_, k_ in ((sig[:63], pk), (sig + b'\x00\x00', pk), (b'', pk), (sig, pk[:31]), (sig, pk + b'\x00'), (sig, b'')):
         cases.append(('wrong length', cfg, {}, P(s_) + P(k_) + op('CHECK_SIG') + b'\xff', 'ERR'))
     cases.append(('CHECK_SIG_STACK wrong length', cfg, {}, P(sig + b'\x00') + P(b'') + P(pk) + op('CHECK_SIG_STACK'), 'ERR'))
+    for k_ in (pk[:31], pk + b'\x00', pk + pk, b'', pk[:1]):
+        cases.append(('CHECK_SIG_STACK wrong key length', cfg, {}, P(sig) + P(b'') + P(k_) + op('CHECK_SIG_STACK'), 'ERR'))
+        cases.append(('CHECK_SIG_STACK wrong key length (then NOT)', cfg, {}, P(sig) + P(b'm') + P(k_) + op('CHECK_SIG_STACK') + op('NOT'), 'ERR'))
+    for s_ in (sig[:63], sig + b'\x01', b'', sig + sig):
+        cases.append(('CHECK_SIG_STACK wrong signature length', cfg, {}, P(s_) + P(b'') + P(pk) + op('CHECK_SIG_STACK'), 'ERR'))
     cases.append(('SIGN wrong seed length', cfg, {}, P(b'short') + op('SIGN') + b'\x00', 'ERR'))
     outs = []
     def work():
